@@ -97,12 +97,12 @@ Proof.
 Qed.
 
 (* a conditional group counts as present exactly when one of its members is non-zero *)
-Lemma flags_bit_iff fds vs b : forallb tag_ok fds = true ->
+Lemma flags_bit_spec fds vs b :
   N.testbit (flags_of fds vs) b = true <->
   exists j fd v, nth_error fds j = Some fd /\ nth_error vs j = Some v /\
                  tag_bit (f_tag fd) = Some b /\ is_zero v = false.
 Proof.
-  intros _. revert vs. induction fds as [|fd0 fds IH]; intros vs.
+  revert vs. induction fds as [|fd0 fds IH]; intros vs.
   - cbn [flags_of]. rewrite N.bits_0. split; [discriminate|].
     intros (j & fd & v & H & _). destruct j; discriminate.
   - destruct vs as [|v0 vs].
@@ -127,6 +127,12 @@ Proof.
            destruct (tag_bit (f_tag fd0)); auto. destruct (is_zero v0); auto.
            rewrite N.lor_spec, H'. apply orb_true_r.
 Qed.
+
+Lemma flags_bit_iff fds vs b : forallb tag_ok fds = true ->
+  N.testbit (flags_of fds vs) b = true <->
+  exists j fd v, nth_error fds j = Some fd /\ nth_error vs j = Some v /\
+                 tag_bit (f_tag fd) = Some b /\ is_zero v = false.
+Proof. intros _. apply flags_bit_spec. Qed.
 
 (* if the group bit is set, every TagFlag member of the group, zero-valued or not, is
    written and comes back (as its normal form) *)
@@ -553,3 +559,185 @@ Proof.
   - destruct t; discriminate.
   - destruct t; discriminate.
 Qed.
+
+Theorem roundtrip : forall v t bs, wt t v = true -> enc v = Ok bs ->
+  forall h rest, exists f0, forall f, (f0 <= f)%nat ->
+    dec f (JVal t) (h, bs ++ rest) = DOk ([norm v], (h, rest)).
+Proof. intros v t bs Hwt Henc h rest. exact (roundtrip_all v t bs h rest Hwt Henc). Qed.
+
+(* tl.Decode(tl.Marshal(x), &T{}) *)
+Corollary roundtrip_named : forall tid fs bs,
+  wt (TPtr tid) (VObj tid fs) = true -> enc (VObj tid fs) = Ok bs ->
+  exists f0, forall f, (f0 <= f)%nat -> decode_named U inflate f tid bs = DOk (norm (VObj tid fs)).
+Proof.
+  intros tid fs bs Hwt Henc. destruct (roundtrip _ _ _ Hwt Henc [] []) as [f0 Hf0].
+  exists f0. intros f Hf. unfold decode_named. rewrite app_nil_r in Hf0. rewrite Hf0 by exact Hf. reflexivity.
+Qed.
+
+(* tl.DecodeUnknownObject(tl.Marshal(x)) *)
+Corollary roundtrip_unknown : forall tid fs bs,
+  wt (TIface 0) (VObj tid fs) = true -> enc (VObj tid fs) = Ok bs ->
+  exists f0, forall f, (f0 <= f)%nat -> decode_unknown U inflate f [] bs = DOk (norm (VObj tid fs)).
+Proof.
+  intros tid fs bs Hwt Henc. cbn [Codec.enc] in Henc. cbn [Typing.wt] in Hwt.
+  destruct (get_struct U tid) as [sd|] eqn:Hg; [|discriminate].
+  destruct (s_crc sd) as [crc|] eqn:Hcrc; [|discriminate].
+  destruct (existsb bad_field (s_fields sd)); [discriminate|].
+  apply obind_ok in Henc as [body [Hasm Henc]]. apply Ok_inj in Henc. subst bs.
+  apply andb_prop in Hwt as [Hwt Hall]. apply andb_prop in Hwt as [Hwt Hreg].
+  apply andb_prop in Hwt as [Hwf Himpl].
+  assert (HP : Forall RTP fs) by (apply Forall_forall; intros; apply roundtrip_all).
+  destruct (reg_rt tid sd crc fs body [] [] Hg Hwf Hcrc Hreg HP Hall Hasm) as [f0 Hf0].
+  exists f0. intros f Hf. unfold decode_unknown. rewrite app_nil_r in Hf0. rewrite Hf0 by exact Hf. reflexivity.
+Qed.
+
+End RT.
+
+(* Without [pseudo_ok] the statement is false: a struct registered under the id of boolFalse
+   that has a field is written with the field and read back without it. *)
+Definition cex_U : universe :=
+  {| u_structs := [ {| s_crc := Some crc_false; s_flagidx := None;
+                       s_fields := [ {| f_ty := TI32; f_tag := TagNone |} ]; s_impls := [0] |} ];
+     u_enum_impls := []; u_reg := []; u_true := 1; u_false := 0; u_null := 2 |}.
+
+Example pseudo_ok_needed :
+  let v := VObj 0 [VInt 5] in
+  pseudo_ok cex_U = false /\ wt cex_U (TIface 0) v = true /\
+  exists bs, enc cex_U v = Ok bs /\
+    forall f, dec cex_U (fun _ => None) f (JVal (TIface 0)) ([], bs ++ []) <> DOk ([norm cex_U v], ([], [])).
+Proof.
+  cbv zeta. split; [reflexivity|]. split; [reflexivity|]. eexists. split; [reflexivity|].
+  intros [|[|f]]; vm_compute; discriminate.
+Qed.
+
+(* ---------- the normal form is a fixed point, and encodes to the same bytes ---------- *)
+Section Norm.
+Variable U : universe.
+Notation enc := (enc U).
+Notation wt := (wt U).
+Notation norm := (norm U).
+Notation norm_fields := (norm_fields U).
+
+Lemma is_zero_zero_of t : is_zero (zero_of t) = true.
+Proof. destruct t; reflexivity. Qed.
+
+Lemma norm_nonzero v : is_zero v = false -> is_zero (norm v) = false.
+Proof.
+  destruct v; cbn [Typing.norm]; auto.
+  destruct (get_struct U tid); auto.
+Qed.
+
+Lemma nth_norm_fields fl : forall fds vs j,
+  nth_error (norm_fields fl fds vs) j =
+  match nth_error fds j, nth_error vs j with
+  | Some fd, Some v => Some (norm_field norm fl fd v)
+  | _, _ => None
+  end.
+Proof.
+  induction fds as [|fd fds IH]; intros vs j.
+  - destruct vs; cbn [Typing.norm_fields]; destruct j; reflexivity.
+  - destruct vs as [|v vs]; cbn [Typing.norm_fields].
+    + destruct j as [|j]; cbn [nth_error]; [reflexivity|]. now destruct (nth_error fds j).
+    + destruct j as [|j]; cbn [nth_error]; [reflexivity|]. apply IH.
+Qed.
+
+Lemma flags_norm_fields fds vs :
+  flags_of fds (norm_fields (flags_of fds vs) fds vs) = flags_of fds vs.
+Proof.
+  apply N.bits_inj. intros b. apply eq_true_iff_eq. rewrite !flags_bit_spec.
+  set (fl := flags_of fds vs). split.
+  - intros (j & fd & v' & Hf & Hv & Ht & Hz). rewrite nth_norm_fields, Hf in Hv.
+    destruct (nth_error vs j) as [v|] eqn:Ev; [|discriminate]. apply some_inj in Hv. subst v'.
+    destruct (N.testbit fl b) eqn:Eb.
+    + subst fl. now apply flags_bit_spec in Eb.
+    + exfalso. unfold norm_field in Hz.
+      destruct (f_tag fd); cbn [tag_bit] in Ht; try discriminate; apply some_inj in Ht; subst b0;
+        rewrite Eb, is_zero_zero_of in Hz; discriminate.
+  - intros (j & fd & v & Hf & Hv & Ht & Hz).
+    assert (Eb : N.testbit fl b = true) by (subst fl; apply flags_bit_spec; eauto 8).
+    exists j, fd, (norm_field norm fl fd v). rewrite nth_norm_fields, Hf, Hv. repeat split; auto.
+    unfold norm_field.
+    destruct (f_tag fd); cbn [tag_bit] in Ht; try discriminate; apply some_inj in Ht; subst b0; rewrite Eb.
+    + now apply norm_nonzero.
+    + reflexivity.
+Qed.
+
+Lemma norm_obj_none tid fs : get_struct U tid = None -> norm (VObj tid fs) = VObj tid fs.
+Proof. intros H. cbn [Typing.norm]. now rewrite H. Qed.
+
+Lemma norm_idem_all v : norm (norm v) = norm v.
+Proof.
+  induction v using gval_ind'; try reflexivity.
+  - destruct (get_struct U tid) as [sd|] eqn:Hg.
+    + rewrite (norm_obj U tid fs sd Hg). rewrite (norm_obj U tid _ sd Hg). f_equal.
+      rewrite flags_norm_fields. generalize (flags_of (s_fields sd) fs) as fl. intros fl.
+      generalize (s_fields sd) as fds. induction H as [|v vs Hv _ IH]; intros fds.
+      * destruct fds; reflexivity.
+      * destruct fds as [|fd fds]; [reflexivity|]. cbn [Typing.norm_fields]. f_equal; [|apply IH].
+        unfold norm_field. destruct (f_tag fd); auto; destruct (N.testbit fl b); auto.
+    + rewrite (norm_obj_none _ _ Hg). now apply norm_obj_none.
+  - cbn [Typing.norm]. f_equal. rewrite map_map. induction H as [|v l Hv _ IH]; cbn [map]; [reflexivity|].
+    now rewrite Hv, IH.
+Qed.
+
+Lemma norm_idem t v : wt t v = true -> norm (norm v) = norm v.
+Proof. intros _. apply norm_idem_all. Qed.
+
+Definition ENP (v : gval) : Prop := forall t, wt t v = true -> enc (norm v) = enc v.
+
+Lemma assemble_norm fi fl : forall fds fs i j,
+  Forall ENP fs -> all2 (wt_field wt) fds fs = true ->
+  assemble fi fl i j fds (map enc (norm_fields fl fds fs)) = assemble fi fl i j fds (map enc fs).
+Proof.
+  induction fds as [|fd fds IH]; intros fs i j HP Hwt.
+  - apply all2_nil_l in Hwt. subst fs. reflexivity.
+  - apply all2_cons_l in Hwt as (v & vs & -> & Hwv & Hwt). inversion HP as [|? ? HPv HPvs]; subst.
+    cbn [Typing.norm_fields map assemble]. rewrite IH by assumption.
+    unfold selected, norm_field, wt_field in *.
+    destruct (f_tag fd); auto.
+    + now rewrite (HPv _ Hwv).
+    + destruct (N.testbit fl b); auto. now rewrite (HPv _ Hwv).
+Qed.
+
+Lemma enc_norm_obj tid fs sd :
+  get_struct U tid = Some sd -> Forall ENP fs -> all2 (wt_field wt) (s_fields sd) fs = true ->
+  enc (norm (VObj tid fs)) = enc (VObj tid fs).
+Proof.
+  intros Hg HP Hall. rewrite (norm_obj U tid fs sd Hg). cbn [Codec.enc]. rewrite Hg.
+  destruct (s_crc sd); auto. destruct (existsb bad_field (s_fields sd)); auto.
+  rewrite flags_norm_fields, assemble_norm by assumption. reflexivity.
+Qed.
+
+Lemma enc_norm_all v : ENP v.
+Proof.
+  induction v using gval_ind'; intros t Hwt; try reflexivity.
+  - destruct (get_struct U tid) as [sd|] eqn:Hg.
+    2:{ now rewrite (norm_obj_none _ _ Hg). }
+    apply (enc_norm_obj tid fs sd Hg H).
+    destruct t; try discriminate; cbn [Typing.wt] in Hwt.
+    + rewrite Hg in Hwt. now apply andb_prop in Hwt as [_ Hwt].
+    + apply andb_prop in Hwt as [_ Hwt]. rewrite Hg in Hwt. now apply andb_prop in Hwt as [_ Hwt].
+  - destruct t; try discriminate; cbn [Typing.wt] in Hwt. apply andb_prop in Hwt as [_ Hall].
+    cbn [Typing.norm Codec.enc]. rewrite map_length.
+    replace (map enc (map norm l)) with (map enc l); [reflexivity|].
+    induction H as [|v l Hv _ IH]; cbn [map forallb] in *; [reflexivity|].
+    apply andb_prop in Hall as [Hwv Hall]. now rewrite (Hv _ Hwv), IH.
+Qed.
+
+Lemma enc_norm t v : wt t v = true -> enc (norm v) = enc v.
+Proof. intros H. exact (enc_norm_all v t H). Qed.
+
+End Norm.
+
+Check roundtrip.
+Check roundtrip_named.
+Check roundtrip_unknown.
+Check flags_bit_iff.
+Check present_member_survives.
+Check norm_idem.
+Check enc_norm.
+Print Assumptions roundtrip_named.
+Print Assumptions roundtrip_unknown.
+Print Assumptions enc_norm.
+Print Assumptions norm_idem.
+Print Assumptions roundtrip.
